@@ -3,19 +3,21 @@
 // whose dispatch goes to recording forwarding threads, and writes a trace for runner/Face (mode lp).
 //
 // Trace format (one case; byte strings in hex, "-" = absent/empty):
-//   LPCASE <id> <kind> nthreads=<n> local=<0|1> reasm=<0|1> ccf=<0|1> lcp=<0|1>
-//   SEND mtu=<m> frag=<0|1> ifi=<0|1> seq=<dec> tok=<hex> inface=<dec> mark=<dec> wire=<hex>      (real sendPacket)
-//   SENDZ mtu=.. frag=.. ifi=.. seq=.. tok=.. inface=.. mark=.. n=<len>                            (wire = pattern(n): byte i = i*7+n mod 251)
-//     FR <hex> | FO <hex>     frame accepted / refused (larger than the MTU) by the transport   (after SEND)
-//     FZ <len>:<md5/8> ... | OZ <len>:<md5/8> ...                                               (after SENDZ)
-//     NS <dec>                sender's nextSequence afterwards;   SP  = the sender panicked
-//   RECV <frame hex>                                                                           (real handleIncomingFrame)
-//     DEC <decode>            spec.ReadPacket of the frame as seen by the harness: E | P <i> <d> <lp>
-//     AL <bytes>              heap bytes allocated during the call (runtime.MemStats.TotalAlloc delta)
-//     DL <thread> <I|D> <raw> <tok> <mark> <nexthop> <cachepolicy>     packet queued to a forwarding thread
-//     ST <nInInterests> <nInData> <store>     store = "-" or base:len,len,..;base:..  (sorted by base)
-//     RP                      the receiver panicked (the case ends)
-//   END
+//
+//	LPCASE <id> <kind> nthreads=<n> local=<0|1> reasm=<0|1> ccf=<0|1> lcp=<0|1>
+//	SEND mtu=<m> frag=<0|1> ifi=<0|1> seq=<dec> tok=<hex> inface=<dec> mark=<dec> [hist=fi,fi,..] wire=<hex>      (real sendPacket;
+//	     hist: the sender is constructed with the first option pair and SetOptions is called for each further one)
+//	SENDZ mtu=.. frag=.. ifi=.. seq=.. tok=.. inface=.. mark=.. n=<len>                            (wire = pattern(n): byte i = i*7+n mod 251)
+//	  FR <hex> | FO <hex>     frame accepted / refused (larger than the MTU) by the transport   (after SEND)
+//	  FZ <len>:<md5/8> ... | OZ <len>:<md5/8> ...                                               (after SENDZ)
+//	  NS <dec>                sender's nextSequence afterwards;   SP  = the sender panicked
+//	RECV <frame hex>                                                                           (real handleIncomingFrame)
+//	  DEC <decode>            spec.ReadPacket of the frame as seen by the harness: E | P <i> <d> <lp>
+//	  AL <bytes>              heap bytes allocated during the call (runtime.MemStats.TotalAlloc delta)
+//	  DL <thread> <I|D> <raw> <tok> <mark> <nexthop> <cachepolicy>     packet queued to a forwarding thread
+//	  ST <nInInterests> <nInData> <store>     store = "-" or base:len,len,..;base:..  (sorted by base)
+//	  RP                      the receiver panicked (the case ends)
+//	END
 package facelp
 
 import (
@@ -75,11 +77,11 @@ type recThread struct {
 	log *[]delivered
 }
 
-func (t *recThread) String() string               { return "rec" + strconv.Itoa(t.id) }
-func (t *recThread) QueueData(p *defn.Pkt)        { *t.log = append(*t.log, delivered{t.id, "D", p}) }
-func (t *recThread) QueueInterest(p *defn.Pkt)    { *t.log = append(*t.log, delivered{t.id, "I", p}) }
-func (t *recThread) GetNumPitEntries() int        { return 0 }
-func (t *recThread) GetNumCsEntries() int         { return 0 }
+func (t *recThread) String() string            { return "rec" + strconv.Itoa(t.id) }
+func (t *recThread) QueueData(p *defn.Pkt)     { *t.log = append(*t.log, delivered{t.id, "D", p}) }
+func (t *recThread) QueueInterest(p *defn.Pkt) { *t.log = append(*t.log, delivered{t.id, "I", p}) }
+func (t *recThread) GetNumPitEntries() int     { return 0 }
+func (t *recThread) GetNumCsEntries() int      { return 0 }
 
 var dlog []delivered
 
@@ -165,9 +167,11 @@ type lpOp struct {
 	tok    []byte
 	inface *uint64
 	mark   *uint64
-	wire   []byte // SEND
-	n      int    // SENDZ
-	frame  []byte // RECV
+	wire   []byte   // SEND
+	n      int      // SENDZ
+	hist   []string // option history of the sending link service: "fi" items (fragmentation, incoming-face indication):
+	// constructed with the first, SetOptions for each further one; the last equals (frag, ifi). nil = constructed with (frag, ifi)
+	frame []byte // RECV
 	// filled when a SEND is executed with capture
 	frames [][]byte
 }
@@ -224,7 +228,23 @@ func storeStr(l *face.NDNLPLinkService) string {
 }
 
 func opHeader(o *lpOp) string {
-	return fmt.Sprintf("mtu=%d frag=%s ifi=%s seq=%d tok=%s inface=%s mark=%s", o.mtu, b01(o.frag), b01(o.ifi), o.seq, hx(o.tok), optU(o.inface), optU(o.mark))
+	h := fmt.Sprintf("mtu=%d frag=%s ifi=%s seq=%d tok=%s inface=%s mark=%s", o.mtu, b01(o.frag), b01(o.ifi), o.seq, hx(o.tok), optU(o.inface), optU(o.mark))
+	if len(o.hist) > 0 {
+		h += " hist=" + strings.Join(o.hist, ",")
+	}
+	return h
+}
+
+// senderOptions builds the options for one step of an option history; the flags that do not concern the send path vary
+// with the step the way management faces/update sets them (local fields as a group, congestion marking).
+func senderOptions(item string, step int) face.NDNLPLinkServiceOptions {
+	op := face.MakeNDNLPLinkServiceOptions()
+	op.IsFragmentationEnabled = item[0] == '1'
+	op.IsIncomingFaceIndicationEnabled = item[1] == '1'
+	op.IsConsumerControlledForwardingEnabled = item[1] == '1'
+	op.IsLocalCachePolicyEnabled = item[1] == '1'
+	op.IsCongestionMarkingEnabled = step%2 == 1
+	return op
 }
 
 // runLpCase executes the case on the real code and writes the trace.
@@ -249,10 +269,19 @@ func runLpCase(w *bufio.Writer, c *lpCase, r *rand.Rand) {
 		switch o.kind {
 		case "SEND", "SENDZ":
 			st := face.NewVerifTransport(o.mtu, defn.NonLocal)
-			sopts := face.MakeNDNLPLinkServiceOptions()
-			sopts.IsFragmentationEnabled = o.frag
-			sopts.IsIncomingFaceIndicationEnabled = o.ifi
-			snd := face.VerifMakeLinkService(st, sopts, 55)
+			var snd *face.NDNLPLinkService
+			if len(o.hist) == 0 {
+				sopts := face.MakeNDNLPLinkServiceOptions()
+				sopts.IsFragmentationEnabled = o.frag
+				sopts.IsIncomingFaceIndicationEnabled = o.ifi
+				snd = face.VerifMakeLinkService(st, sopts, 55)
+			} else {
+				// a link service that lives through option changes (management faces/update -> SetOptions)
+				snd = face.VerifMakeLinkService(st, senderOptions(o.hist[0], 0), 55)
+				for k, it := range o.hist[1:] {
+					snd.SetOptions(senderOptions(it, k+1))
+				}
+			}
 			face.VerifSetNextSequence(snd, o.seq)
 			wire := o.wire
 			if o.kind == "SENDZ" {
@@ -479,6 +508,9 @@ func genPermCase(r *rand.Rand, idx int, thorough bool) *lpCase {
 		if r.Intn(2) == 0 {
 			o.inface = utils.IdPtr(uint64(r.Intn(70000)))
 		}
+		if r.Intn(4) == 0 {
+			o.hist = randHist(r, frag, ifi)
+		}
 		c.ops = append(c.ops, o)
 		seq += 400 // more than any packet needs (<= 275 fragments); wraps like the real counter
 	}
@@ -519,6 +551,80 @@ func genPermCase(r *rand.Rand, idx int, thorough bool) *lpCase {
 			}
 			r.Shuffle(len(all), func(i, j int) { all[i], all[j] = all[j], all[i] })
 		}
+		res := make([]*lpOp, len(all))
+		for k, x := range all {
+			res[k] = &lpOp{kind: "RECV", frame: per[x.m][x.i]}
+			c.order = append(c.order, fmt.Sprintf("%d.%d", x.m, x.i))
+		}
+		return res
+	}
+	return c
+}
+
+var optItems = []string{"00", "01", "10", "11"}
+
+// randHist returns an option history of 2..4 steps ending in (frag, ifi).
+func randHist(r *rand.Rand, frag, ifi bool) []string {
+	n := 1 + r.Intn(3)
+	h := make([]string, 0, n+1)
+	for i := 0; i < n; i++ {
+		h = append(h, optItems[r.Intn(4)])
+	}
+	return append(h, b01(frag)+b01(ifi))
+}
+
+var histSeqs = []uint64{0, 255, 256, 65535, 65536, 1<<32 - 1, 1 << 32, 1<<32 + 7, 1<<63 - 1, 1<<64 - 1, 1<<64 - 3}
+
+// genHistCase: a link service constructed with options A, changed by SetOptions (every pair of flag settings, incl.
+// fragmentation off -> on and incoming-face indication off -> on), sequence counter near 2^32 / 2^64, then
+// boundary-sized packets; the frames go to the peer in a random order.
+func genHistCase(r *rand.Rand, idx int, thorough bool) *lpCase {
+	mtus := lpMTUs
+	if thorough {
+		mtus = lpMTUsThorough
+	}
+	c := &lpCase{id: fmt.Sprintf("hist%d", idx), kind: "c10-perm", nthreads: 1 + r.Intn(3), reasm: true, ccf: r.Intn(2) == 0, lcp: r.Intn(2) == 0}
+	mtu := mtus[r.Intn(len(mtus))]
+	from := optItems[idx%4]
+	to := optItems[(idx/4)%4]
+	hist := []string{from, to}
+	if idx%5 == 4 { // a longer history ending in the same options
+		hist = []string{optItems[r.Intn(4)], from, to}
+	}
+	frag, ifi := to[0] == '1', to[1] == '1'
+	sizes := boundarySizes(mtu)
+	seq := histSeqs[r.Intn(len(histSeqs))]
+	nmsg := 1 + r.Intn(2)
+	for m := 0; m < nmsg; m++ {
+		target := sizes[r.Intn(len(sizes))]
+		if r.Intn(3) == 0 {
+			target = 2*mtu + r.Intn(3*mtu)
+		}
+		if target > 8800 {
+			target = 8800 - r.Intn(50)
+		}
+		o := &lpOp{kind: "SEND", mtu: mtu, frag: frag, ifi: ifi, seq: seq, tok: pickToken(r, c.nthreads), mark: pickOptU(r), wire: mkData(r, target), hist: hist}
+		if r.Intn(4) != 0 {
+			o.inface = utils.IdPtr([]uint64{1, 255, 256, 70000, 1 << 32, 1<<64 - 1}[r.Intn(6)])
+		}
+		c.ops = append(c.ops, o)
+		seq += 400
+	}
+	c.after = func(c *lpCase, r *rand.Rand) []*lpOp {
+		type ref struct{ m, i int }
+		var all []ref
+		var per [][][]byte
+		for _, o := range c.ops {
+			if o.kind == "SEND" {
+				per = append(per, o.frames)
+			}
+		}
+		for m, fs := range per {
+			for i := range fs {
+				all = append(all, ref{m, i})
+			}
+		}
+		r.Shuffle(len(all), func(i, j int) { all[i], all[j] = all[j], all[i] })
 		res := make([]*lpOp, len(all))
 		for k, x := range all {
 			res[k] = &lpOp{kind: "RECV", frame: per[x.m][x.i]}
@@ -638,8 +744,16 @@ func genSweepCase(r *rand.Rand, idx int, mtu int, sizes []int) *lpCase {
 	if idx%2 == 0 {
 		inface = utils.IdPtr(uint64(1000 + idx))
 	}
+	var hist []string
+	if idx%2 == 1 { // the link service got its options through SetOptions; sequence numbers need 8 bytes
+		hist = []string{optItems[(idx/2)%4], b01(frag) + b01(ifi)}
+	}
 	for _, n := range sizes {
-		c.ops = append(c.ops, &lpOp{kind: "SENDZ", mtu: mtu, frag: frag, ifi: ifi, seq: uint64(n), tok: tok, inface: inface, mark: mark, n: n})
+		seq := uint64(n)
+		if hist != nil {
+			seq += 1 << 32
+		}
+		c.ops = append(c.ops, &lpOp{kind: "SENDZ", mtu: mtu, frag: frag, ifi: ifi, seq: seq, tok: tok, inface: inface, mark: mark, n: n, hist: hist})
 	}
 	return c
 }
@@ -696,6 +810,49 @@ func mutateFrame(r *rand.Rand, f []byte) []byte {
 	return g
 }
 
+// handcrafted network-layer packets at the edges of the Interest/Data checks (each is fed bare, LP-wrapped and split)
+var edgeL3 = [][]byte{
+	{0x05, 0x05, 0x07, 0x00, 0x24, 0x01, 0x00}, // Interest, empty name, ApplicationParameters
+	{0x05, 0x02, 0x07, 0x00},                   // Interest, empty name
+	{0x05, 0x00},                               // Interest without name
+	{0x06, 0x02, 0x07, 0x00},                   // Data, empty name
+	{0x06, 0x00},                               // Data without name
+	{0x05, 0x08, 0x07, 0x03, 0x08, 0x01, 0x61, 0x24, 0x01, 0x00},             // parameters, no digest component
+	{0x05, 0x0a, 0x07, 0x05, 0x08, 0x01, 0x61, 0x02, 0x00, 0x24, 0x01, 0x00}, // empty digest component
+	{0x05, 0x07, 0x07, 0x03, 0x08, 0x01, 0x61, 0x0a, 0x00},                   // empty nonce
+	{0x05, 0x09, 0x07, 0x03, 0x08, 0x01, 0x61, 0x2c, 0x00, 0x2e, 0x00},       // signed Interest pieces without parameters
+	{0x06, 0x07, 0x07, 0x03, 0x08, 0x01, 0x61, 0x16, 0x00},                   // Data, empty SignatureInfo
+	{0x05, 0x05, 0x07, 0x03, 0x08, 0x01, 0x61, 0x06, 0x02, 0x07, 0x00},       // Interest followed by a Data in one frame
+	{0x64, 0x06, 0xfd, 0x03, 0x20, 0x00, 0x50, 0x00},                         // Nack header, empty fragment
+}
+
+// soupL3 builds an Interest- or Data-typed TLV from a random selection of (possibly empty or odd) fields.
+func soupL3(r *rand.Rand) []byte {
+	nameOpts := [][]byte{{0x07, 0x00}, {0x07, 0x03, 0x08, 0x01, 0x61}, {0x07, 0x02, 0x08, 0x00}, {0x07, 0x05, 0x08, 0x01, 0x61, 0x02, 0x00},
+		append([]byte{0x07, 0x25, 0x08, 0x01, 0x61, 0x02, 0x20}, make([]byte, 32)...), {0x07, 0x04, 0x01, 0x02, 0xff, 0xff}}
+	var body []byte
+	if r.Intn(8) != 0 {
+		body = append(body, nameOpts[r.Intn(len(nameOpts))]...)
+	}
+	var fields [][]byte
+	if r.Intn(2) == 0 {
+		fields = [][]byte{{0x21, 0x00}, {0x12, 0x00}, {0x1e, 0x00}, {0x0a, 0x04, 1, 2, 3, 4}, {0x0a, 0x00}, {0x0c, 0x01, 0x10}, {0x0c, 0x00}, {0x22, 0x01, 0x05}, {0x22, 0x00},
+			{0x24, 0x01, 0x00}, {0x24, 0x00}, {0x2c, 0x03, 0x1b, 0x01, 0x00}, {0x2c, 0x00}, {0x2e, 0x00}, {0x2e, 0x02, 1, 2}}
+		n := r.Intn(5)
+		for i := 0; i < n; i++ {
+			body = append(body, fields[r.Intn(len(fields))]...)
+		}
+		return append([]byte{0x05, byte(len(body))}, body...)
+	}
+	fields = [][]byte{{0x14, 0x00}, {0x14, 0x03, 0x18, 0x01, 0x00}, {0x14, 0x02, 0x1a, 0x00}, {0x15, 0x00}, {0x15, 0x02, 7, 7}, {0x16, 0x00}, {0x16, 0x03, 0x1b, 0x01, 0x00},
+		{0x17, 0x00}, {0x17, 0x20}, {0x17, 0x02, 1, 2}}
+	n := r.Intn(5)
+	for i := 0; i < n; i++ {
+		body = append(body, fields[r.Intn(len(fields))]...)
+	}
+	return append([]byte{0x06, byte(len(body))}, body...)
+}
+
 func genAdvLpCase(r *rand.Rand, idx int) *lpCase {
 	c := &lpCase{id: fmt.Sprintf("advlp%d", idx), kind: "adv-frames", nthreads: 1 + r.Intn(4), local: r.Intn(3) == 0, reasm: r.Intn(6) != 0,
 		ccf: r.Intn(2) == 0, lcp: r.Intn(2) == 0}
@@ -719,7 +876,33 @@ func genAdvLpCase(r *rand.Rand, idx int) *lpCase {
 	var prev [][]byte
 	for k := 0; k < nops; k++ {
 		var f []byte
-		switch r.Intn(12) {
+		switch r.Intn(14) {
+		case 12, 13: // network-layer packets at the edges of the Interest/Data checks: bare, LP-wrapped, or as two fragments
+			var w []byte
+			if r.Intn(3) == 0 {
+				w = edgeL3[r.Intn(len(edgeL3))]
+			} else {
+				w = soupL3(r)
+			}
+			switch r.Intn(4) {
+			case 0:
+				f = w
+			case 1:
+				f = encodeLp(&spec.LpPacket{Fragment: enc.Wire{w}, PitToken: pickToken(r, c.nthreads)})
+			case 2:
+				f = encodeLp(&spec.LpPacket{Fragment: enc.Wire{w}})
+			default:
+				if len(w) >= 2 {
+					h := len(w) / 2
+					base := uint64(5000 + 10*k)
+					f0 := encodeLp(&spec.LpPacket{Sequence: utils.IdPtr(base), FragIndex: utils.IdPtr(uint64(0)), FragCount: utils.IdPtr(uint64(2)), Fragment: enc.Wire{w[:h]}})
+					prev = append(prev, f0)
+					c.ops = append(c.ops, &lpOp{kind: "RECV", frame: f0})
+					f = encodeLp(&spec.LpPacket{Sequence: utils.IdPtr(base + 1), FragIndex: utils.IdPtr(uint64(1)), FragCount: utils.IdPtr(uint64(2)), Fragment: enc.Wire{w[h:]}})
+				} else {
+					f = w
+				}
+			}
 		case 0, 1, 2: // a fragment frame with arbitrary numbers
 			lp := &spec.LpPacket{Sequence: pickAdvNum(r), FragIndex: pickAdvNum(r), FragCount: pickAdvNum(r)}
 			if lp.Sequence != nil && r.Intn(2) == 0 {
@@ -877,6 +1060,9 @@ func readLpCases(path string) ([]*lpCase, error) {
 			mtu, _ := strconv.Atoi(kv["mtu"])
 			seq, _ := strconv.ParseUint(kv["seq"], 10, 64)
 			o := &lpOp{kind: fs[0], mtu: mtu, frag: kv["frag"] == "1", ifi: kv["ifi"] == "1", seq: seq, tok: unhx(kv["tok"]), inface: unoptU(kv["inface"]), mark: unoptU(kv["mark"])}
+			if h, ok := kv["hist"]; ok && h != "" && h != "-" {
+				o.hist = strings.Split(h, ",")
+			}
 			if fs[0] == "SEND" {
 				o.wire = unhx(kv["wire"])
 			} else {
@@ -970,6 +1156,16 @@ func TestLpTrace(t *testing.T) {
 		}
 		for i := 0; i < nperm; i++ {
 			cases = append(cases, genPermCase(r, i, thorough))
+		}
+		// option histories (SetOptions) : every (from, to) pair of flag settings several times
+		if nperm > 0 {
+			nh := 48
+			if thorough {
+				nh = 1600
+			}
+			for i := 0; i < nh; i++ {
+				cases = append(cases, genHistCase(r, i, thorough))
+			}
 		}
 		// every permutation of the frames of a small set of messages
 		if nperm > 0 {
